@@ -260,6 +260,22 @@ pub fn gen_net(r: &mut Rng, big: bool) -> NetSpec {
     }
 }
 
+/// one or two wide dense layers on a batch large enough for activations of 1024+ values (for the monitors that need no
+/// reference gradients: release of memory, immutability)
+pub fn gen_wide_net(r: &mut Rng) -> NetSpec {
+    let acts = [Act::None, Act::Relu, Act::Sigmoid, Act::Softmax];
+    let (inp, hid) = (r.range(4, 12), *r.pick(&[48usize, 64, 80]));
+    let batch = r.range(16, 24);
+    let mut layers = vec![LSpec::Dense { inp, out: hid, act: acts[1 + r.below(3)] }];
+    let ce = r.chance(1, 2);
+    if r.chance(1, 2) {
+        layers.push(LSpec::Dense { inp: hid, out: r.range(2, 6), act: if ce { Act::Softmax } else { acts[r.below(4)] } });
+    } else if ce {
+        layers[0] = LSpec::Dense { inp, out: hid, act: Act::Softmax };
+    }
+    NetSpec { layers, in_dims: vec![batch, inp], ce, lr: 0.01 }
+}
+
 pub fn gen_params(r: &mut Rng, spec: &NetSpec, ints: bool) -> Vec<T<f64>> {
     spec.param_dims()
         .iter()
